@@ -387,6 +387,15 @@ func init() {
 				if res, _ := m.Write(false, "\n"); strings.HasPrefix(res, "ok:") {
 					linTextOf[k] = string(unhexs(res[3:]))
 				}
+				// the renderings the contents endpoint owes for each query of the bursts
+				for _, bq := range burstQueries {
+					if bq.q == "" {
+						continue
+					}
+					if res, _ := m.Write(bq.variable, bq.nl); strings.HasPrefix(res, "ok:") {
+						linTextOf[k+"|"+bq.q] = string(unhexs(res[3:]))
+					}
+				}
 			}
 			return k
 		}
@@ -473,6 +482,8 @@ func init() {
 				ks = append(ks, keyOf(m))
 				for i := 0; i < 30; i++ {
 					op := opSimple("contents", ids[(c+i)%3])
+					// every client asks for its own layout: a request must be rendered under its own parameters only
+					op.Query = burstQueries[(c+bsi)%len(burstQueries)].q
 					op.Client = c
 					ops = append(ops, op)
 					ks = append(ks, "")
@@ -547,7 +558,7 @@ func init() {
 			// linearizability against the map specification
 			var events []porcupine.Operation
 			for i, op := range ops {
-				events = append(events, porcupine.Operation{ClientId: op.Client, Input: linIn{op.Op, op.ID, keys[h][i], op.CT}, Call: calls[i],
+				events = append(events, porcupine.Operation{ClientId: op.Client, Input: linIn{op.Op, op.ID, keys[h][i], op.CT, op.Query}, Call: calls[i],
 					Output: linOut{rs[i].Status, rs[i], op}, Return: rets[i]})
 			}
 			if clientsOf(ops) > 16 {
@@ -569,7 +580,18 @@ func init() {
 // default-layout text of each pool message, by content key
 var linTextOf = map[string]string{}
 
-type linIn struct{ op, id, key, ct string }
+type linIn struct{ op, id, key, ct, q string }
+
+// queries of the contents requests in the bursts and the layout each one selects
+var burstQueries = []struct {
+	q        string
+	variable bool
+	nl       string
+}{
+	{"", false, "\n"}, {"format=variable", true, "\n"}, {"newline=true", false, "\n"}, {"newline=false", false, ""},
+	{"format=variable&newline=false", true, ""}, {"format=fixed&newline=true", false, "\n"},
+}
+
 type linOut struct {
 	status int
 	res    httpRes
@@ -630,7 +652,11 @@ var linModel = porcupine.Model{
 				return out.status == 404, state
 			}
 			if in.op == "contents" && out.status == 200 {
-				if want, known := linTextOf[v]; known && want != string(body) {
+				tk := v
+				if in.q != "" {
+					tk = v + "|" + in.q
+				}
+				if want, known := linTextOf[tk]; known && want != string(body) {
 					return false, state // the body is not the text of the file stored under this identifier
 				}
 			}
